@@ -14,8 +14,18 @@
     - pkg/scheduler/plugins/proportion/proportion.go: allocateHandlerFn,
         deallocateHandlerFn (walk up the parent chain, then dereference the
         leaf queue for the log call: nil dereference when the job's queue is
-        unknown), updateQueuesResourceUsageForAllocatedJob (same arithmetic on
-        Allocated / AllocatedNotPreemptible; used for the snapshot's running pods)
+        unknown), updateQueuesCurrentResourceUsage (the session-open pass over
+        job.PodStatusIndex of every job of the snapshot: [snapshot_class],
+        [snapshot_pod], [load_init], [load_requests]: a pod whose status is in
+        pod_status.AllocatedStatus -- Allocated, Binding, Bound, Running -- is
+        charged with its AcceptedResource by
+        updateQueuesResourceUsageForAllocatedJob to Allocated, Request and, for
+        a non-preemptible job, AllocatedNotPreemptible of its queue and of every
+        ancestor; a Pending pod is charged with its ResReq (plus devices x
+        gpu-memory / MinNodeGPUMemory for a gpu-memory request) by
+        updateQueuesResourceUsageForPendingJob to Request only; pods in any
+        other status -- Gated, Pipelined, Releasing, Succeeded, Failed,
+        Unknown, Deleted -- are charged nowhere)
     - pkg/scheduler/plugins/proportion/utils: QuantifyResourceRequirements
     - pkg/scheduler/api/node_info: GetRequiredInitQuota, GetResourceGpuMemory,
         getResourceGpuPortion, getGpuMemoryFractionalOnNode, setAcceptedResources
@@ -37,13 +47,17 @@
 
     Quantities are exact rationals ([Q]); Go computes in float64. Rounding of
     float64 arithmetic is not modelled (the correspondence check uses inputs on
-    which it is exact).  The [Request], [FairShare], [Usage] fields of
-    ResourceShare are left out (no gate of C08 reads them).  MIG resource names
+    which it is exact).  The [FairShare] and [Usage] fields of ResourceShare are
+    left out, and [Request] is modelled only as seeded at session open, in a map
+    of its own ([reqmap]; no gate of C08 reads it and the handlers' updates of it
+    are left out).  The status classes are those of Model/Status.v, which
+    Proofs/StatusTables.v proves equal to the tables of the running code.  MIG resource names
     arrive already parsed as (gpu slices, count) pairs; unparsable names (which
     GetGpusQuota skips with an error log) are not modelled.  DRA GPU counts
     arrive as their total. Which resource exceeded (only present in the
     message text) is not part of the verdict. *)
 From Coq Require Import List ZArith QArith Qround Qreduction Bool.
+From KaiV Require Import Model.Status.
 Import ListNotations.
 Open Scope Q_scope.
 
@@ -266,7 +280,8 @@ Definition handler (add : bool) (fuel : nat) (qs : list queue) (jq : positive) (
 Definition alloc_handler := handler true.
 Definition dealloc_handler := handler false.
 
-(** updateQueuesResourceUsageForAllocatedJob (snapshot's allocated pods): no leaf dereference *)
+(** updateQueuesResourceUsageForAllocatedJob (one allocated pod of the snapshot;
+    Allocated and AllocatedNotPreemptible of the queue and every ancestor): no leaf dereference *)
 Definition snapshot_charge (fuel : nat) (qs : list queue) (jq : positive) (preemptible : bool) (c : rq)
   : result (list queue) :=
   walk_update fuel qs jq (bump true (negb preemptible) c).
@@ -406,3 +421,95 @@ Definition steps_of (es : list event) : list step := flat_map steps_of_event es.
 
 (** the fuel used by the correspondence check and sufficient on every acyclic forest *)
 Definition default_fuel (qs : list queue) : nat := S (length qs).
+
+(** * The snapshot: updateQueuesCurrentResourceUsage
+
+    One pod of the snapshot as the session-open pass sees it: the queue and
+    preemptibility of its job, its status (the key of job.PodStatusIndex it is
+    filed under), QuantifyResourceRequirements(t.AcceptedResource) and the
+    quantities a pending pod asks for ([pending_request]). *)
+Record spod := {
+  sp_task : positive;
+  sp_queue : positive;       (* job.Queue *)
+  sp_preempt : bool;         (* job.IsPreemptibleJob() *)
+  sp_status : status;
+  sp_accepted : rq;          (* QuantifyResourceRequirements(t.AcceptedResource) *)
+  sp_request : rq;           (* QuantifyResourceRequirements(t.ResReq) [+ gpu-memory term] *)
+}.
+
+(** which branch of the loop body a status takes:
+      if pod_status.AllocatedStatus(status) {...} else if status == pod_status.Pending {...} *)
+Inductive snap_class := SnapAllocated | SnapPending | SnapIgnored.
+Definition snapshot_class (st : status) : snap_class :=
+  if allocated_status st then SnapAllocated
+  else if status_eqb st Pending then SnapPending
+  else SnapIgnored.
+
+(** the Pending branch: QuantifyResourceRequirements(t.ResReq), to which a
+    gpu-memory request adds devices * (gpuMemory / ClusterInfo.MinNodeGPUMemory) GPUs *)
+Definition pending_request (min_node_mem : positive) (t : task) : rq :=
+  let b := job_task_request t in
+  match t_type t with
+  | GpuMemory =>
+      {| r_cpu := r_cpu b; r_mem := r_mem b;
+         r_gpu := Qred (r_gpu b + inject_Z (g_count (t_gpu t)) * (inject_Z (g_memory (t_gpu t)) / inject_Z (Zpos min_node_mem))) |}
+  | _ => b
+  end.
+
+Definition entry_of (p : spod) : entry :=
+  {| e_task := sp_task p; e_queue := sp_queue p; e_preempt := sp_preempt p; e_charge := sp_accepted p |}.
+
+(** Allocated / AllocatedNotPreemptible, and the tasks charged *)
+Definition snapshot_pod (fuel : nat) (s : state) (p : spod) : result state :=
+  match snapshot_class (sp_status p) with
+  | SnapAllocated =>
+      match snapshot_charge fuel (s_queues s) (sp_queue p) (sp_preempt p) (sp_accepted p) with
+      | Done qs => Done {| s_queues := qs; s_ledger := entry_of p :: s_ledger s |}
+      | OutOfFuel => OutOfFuel
+      | Panic => Panic
+      end
+  | SnapPending | SnapIgnored => Done s
+  end.
+
+Fixpoint load_init (fuel : nat) (s : state) (ps : list spod) : result state :=
+  match ps with
+  | [] => Done s
+  | p :: r => match snapshot_pod fuel s p with
+              | Done s1 => load_init fuel s1 r
+              | OutOfFuel => OutOfFuel
+              | Panic => Panic
+              end
+  end.
+
+(** Request, as seeded by the same pass (map[QueueID] -> ResourceShare.Request; a queue without entry has 0) *)
+Definition reqmap := list (positive * rq).
+Definition req_get (m : reqmap) (id : positive) : rq :=
+  match find (fun x => Pos.eqb (fst x) id) m with Some x => snd x | None => rq_zero end.
+Definition req_add (m : reqmap) (id : positive) (c : rq) : reqmap :=
+  (id, rq_add (req_get m id) c) :: filter (fun x => negb (Pos.eqb (fst x) id)) m.
+
+Fixpoint walk_request (fuel : nat) (qs : list queue) (id : positive) (c : rq) (m : reqmap) : result reqmap :=
+  match fuel with
+  | O => OutOfFuel
+  | S n => match find_queue qs id with
+           | None => Done m
+           | Some q => walk_request n qs (q_parent q) c (req_add m id c)
+           end
+  end.
+
+Definition snapshot_request (fuel : nat) (qs : list queue) (m : reqmap) (p : spod) : result reqmap :=
+  match snapshot_class (sp_status p) with
+  | SnapAllocated => walk_request fuel qs (sp_queue p) (sp_accepted p) m   (* ...ForAllocatedJob: Request += *)
+  | SnapPending => walk_request fuel qs (sp_queue p) (sp_request p) m      (* ...ForPendingJob *)
+  | SnapIgnored => Done m
+  end.
+
+Fixpoint load_requests (fuel : nat) (qs : list queue) (m : reqmap) (ps : list spod) : result reqmap :=
+  match ps with
+  | [] => Done m
+  | p :: r => match snapshot_request fuel qs m p with
+              | Done m1 => load_requests fuel qs m1 r
+              | OutOfFuel => OutOfFuel
+              | Panic => Panic
+              end
+  end.
